@@ -349,6 +349,28 @@ func (c *Ctx) freshness(v ssa.Value, field string, dagPrepared *types.Var) (stri
 		if cc.IsInvoke() && cc.Method.Name() == "Clone" && loadedField(cc.Value) == dagPrepared {
 			return "a clone of the prepared DAG", true
 		}
+		// a helper of the repo whose every returned value is itself fresh
+		if callee := cc.StaticCallee(); callee != nil && len(callee.Blocks) > 0 && isRepoFn(callee) && !c.freshBusy[callee] {
+			if c.freshBusy == nil {
+				c.freshBusy = map[*ssa.Function]bool{}
+			}
+			c.freshBusy[callee] = true
+			allFresh, n := true, 0
+			eachInstr(callee, func(r instrRef) {
+				if ret, ok := r.I.(*ssa.Return); ok {
+					for _, rv := range retResults(ret) {
+						n++
+						if _, okf := c.freshness(rv, field, dagPrepared); !okf {
+							allFresh = false
+						}
+					}
+				}
+			})
+			delete(c.freshBusy, callee)
+			if allFresh && n > 0 {
+				return "the result of " + c.fnName(callee) + ", which returns fresh values only", true
+			}
+		}
 		if cc.IsInvoke() && cc.Method.Name() == "WithLabel" {
 			return "a derived logger", true
 		}
